@@ -65,6 +65,25 @@ def _kf(suffix):
     return False
 
 
+def n_escaping(t: str) -> bool:
+    """strings that start by leaving the root and go on with real components (`../x`, `a/../../x`):
+    rejected, whatever follows
+    pre: len(t) == N and no_ctl(t) and _plain(t)
+    post: _
+    """
+    ok = True
+    for pre in ('../', 'a/../../', './../'):
+        s = pre + t
+        escapes, comps, isdir = _walk(s)
+        try:
+            Path(s, ROOT)
+            accepted = True
+        except ValueError:
+            accepted = False
+        ok = ok and (accepted != escapes)
+    return R(ok)
+
+
 def n_normalised(s: str) -> bool:
     """construction normalises, and rejects exactly the strings that leave the root
     pre: len(s) == N and no_ctl(s) and _plain(s)
